@@ -171,13 +171,16 @@ namespace ST
             if (this == &copy)
                 return *this;
 
+            // Get the new storage first, so a failed allocation leaves us untouched
+            char_T *chars = copy.is_reffed() ? new char_T[copy.m_size + 1] : nullptr;
+
             if (is_reffed()) {
                 delete[] m_chars;
                 m_size = 0;
             }
 
             if (copy.is_reffed()) {
-                m_chars = new char_T[copy.m_size + 1];
+                m_chars = chars;
                 traits_t::copy(m_chars, copy.m_chars, copy.m_size);
                 m_chars[copy.m_size] = 0;
             } else {
